@@ -101,6 +101,15 @@ Lemma source_constants_c03_lemma :
    Some KTxPaid; None].
 Proof. repeat split. Qed.
 
+(* acceptance depends on the MINED state of the contract only: whatever is merely pending is not seen *)
+Lemma payment_sees_latest_only_lemma : forall latest pending pending',
+  chain_queried latest pending = latest /\ chain_queried latest pending = chain_queried latest pending'.
+Proof. intros. unfold chain_queried, verify_block_tag. split; reflexivity. Qed.
+
+Example ex_pending_only_payment_not_seen :
+  onchain_valid (chain_queried (ChainOk [(true, 1); (false, 1); (true, 1)]) (ChainOk [(true, 1); (true, 1); (true, 1)])) = false.
+Proof. reflexivity. Qed.
+
 (* ------------------------------------------------------------------ non-vacuity *)
 
 Definition ex_env : env := {| e_closest := [0; 1; 2; 3] |}.
